@@ -19,12 +19,17 @@ HZoom(z, x, y, zo) == last' = [op |-> "HZoom", z |-> z, x |-> x, y |-> y, zo |->
 ZToKey(f, zi, zo, E, O) == last' = [op |-> "ZToKey", f |-> f, zi |-> zi, zo |-> zo, E |-> E, O |-> O]
 KeyToZ(k, kz, zo, E, O) == last' = [op |-> "KeyToZ", k |-> k, kz |-> kz, zo |-> zo, E |-> E, O |-> O]
 Cell(a, z, mn, mx) == last' = [op |-> "Cell", a |-> a, z |-> z, mn |-> mn, mx |-> mx]
+Tree(a, b) == last' = [op |-> "Tree", a |-> a, b |-> b]
+\* spatial IDs of zooms 1..3 inside the tree domain, x and y in one quadrant column
+TreeIds == {<<z, f, x, y>> : z \in 1..3, f \in -4..3, x \in 0..7, y \in 0..1} 
+TreeDom == {t \in TreeIds : InTreeDomain(t) /\ t[3] < Pow2(t[1]) /\ t[4] < Pow2(t[1])}
 
 Next == /\ last.op = "Init"
         /\ \/ \E z \in QZ, x \in 0..7, y \in 0..7 : x < Pow2(z) /\ y < Pow2(z) /\ Quad(z, x, y)
            \/ \E z \in QZ, x \in 0..7, y \in 0..7, zo \in QZ : x < Pow2(z) /\ y < Pow2(z) /\ HZoom(z, x, y, zo)
            \/ \E f \in -6..6, zi \in 22..28, d \in -3..3, E \in SmallE, O \in Offsets : ZToKey(f, zi, E + d, E, O)
            \/ \E k \in 0..9, d1 \in -3..3, zo \in 22..28, E \in SmallE, O \in Offsets : KeyToZ(k, E + d1, zo, E, O)
+           \/ \E a \in TreeDom, b \in TreeDom : Tree(a, b)
            \/ \E a \in -3..14, z \in 0..4, mn \in {-2, 0, 3}, span \in {4, 6, 10, 16} : Cell(a, z, mn, mn + span)
 
 Spec == Init /\ [][Next]_vars
@@ -64,6 +69,12 @@ K12_ImplKeyToZInBand == last.op = "KeyToZ" =>
        r == ImplKeyToZ(k, kz, zo, E, O) IN
    (KeyValid(k, kz) /\ r[1] >= -Pow2Sat(zo) /\ r[2] < Pow2Sat(zo)) =>
        KZ_Accept(k, kz, zo, E, O, FALSE, r[1], r[2])
+
+\* C05: the radix-tree relation is the ancestor-or-equal relation on both axes
+K05_TreeIsOverlap == last.op = "Tree" =>
+   /\ TreeOverlap({last.a}, {last.b}) = OverlapImpl(SpToExt(last.a), SpToExt(last.b))
+   /\ TreeOverlap({last.a}, {last.b}) = TreeOverlap({last.b}, {last.a})
+   /\ TreeOverlap({last.a}, {last.a})
 
 \* C17: the closed formula is the repeated halving the code performs
 K17_CellIsHalving == last.op = "Cell" =>
